@@ -12,6 +12,21 @@ sys.path.insert(0, HERE)
 ALL = ["C%02d" % i for i in range(1, 21)]
 
 
+def _deps():
+    from tmv import premises
+    return premises.DEPS
+
+
+def _premise_note(pid):
+    d = _deps().get(pid)
+    if not d:
+        return ""
+    parts = []
+    for other, rules, text in d:
+        parts.append("%s%s" % (other, "" if rules is None else "[" + ",".join(sorted(r.split("-", 1)[1] for r in rules)) + "]"))
+    return " Premises decided by other properties' rules are re-run as part of this check (obligations `%s-premise`): %s." % (pid, ", ".join(parts))
+
+
 def main():
     checks = []
     na = []
@@ -37,8 +52,8 @@ def main():
                 "text": meta["level_text"],
                 "design_ref": meta.get("design_ref", "DESIGN.md section 5, " + pid),
             },
-            "level_note": meta["level_note"],
-            "technique": meta["technique"],
+            "level_note": meta["level_note"] + _premise_note(pid),
+            "technique": meta["technique"] + (" (+ re-run of the rule groups of other properties it rests on)" if pid in _deps() else ""),
         })
     man = {
         "version": 1,
